@@ -509,6 +509,7 @@ type SpecFunc struct {
 	RetType string
 	Body    *Expr
 	Rec     bool
+	Opaque  bool
 	Pkg     string
 }
 
@@ -791,6 +792,10 @@ func parseSpecFunc(s string) (*SpecFunc, error) {
 	if strings.HasPrefix(ret, "rec ") {
 		sf.Rec = true
 		sf.RetType = strings.TrimSpace(ret[4:])
+	}
+	if strings.HasPrefix(ret, "opaque ") {
+		sf.Opaque = true
+		sf.RetType = strings.TrimSpace(ret[7:])
 	}
 	body, err := parseExpr(strings.TrimSpace(s[eq+3:]))
 	if err != nil {
